@@ -32,9 +32,9 @@ LEVEL = "exploration"
 SHARDS = 2
 RULE = (
     "(A) messages = all messages emitted by 6 real programs (incl. failure reports) + synthetic "
-    "messages over 22 field values x 6 timestamps x 3 levels, x 2 formatters; (B) all sequences of <= L "
+    "messages over 23 field values (incl. a lone surrogate) x 6 timestamps x 3 levels, x 2 formatters; (B) all sequences of <= L "
     "lines over an 18-line alphabet (incl. a line with a UTF-8 signature, integers beyond 64 bits, NaN/Infinity tokens) x 2 formatters through _main(); (A2) all ordered pairs (thorough: triples) of messages over 14 values that are equal without being the same JSON value (1, 1.0, True, 0.0, -0.0, False, ...), formatted one after the other in one process; (C) filter expressions {J, SKIP-if-"
-    "type, J['task_uuid'], datetime projection, J.get('value') (null results)} over the message pool in blocks; non-trivial = every "
+    "type, J['task_uuid'], datetime projection, J.get('value') (null results)} over the message pool in blocks, written to {StringIO, UTF-8 text stream, ASCII text stream}; non-trivial = every "
     "case except the single-field default message"
 )
 ASSUMPTIONS = [
@@ -47,7 +47,7 @@ FIRST = ["action_type", "message_type", "action_status"]
 
 VALUES = [
     0, 1, -17, 2 ** 53 + 1, 1.5, -0.0, 1e-07, 1.7976931348623157e308, True, False, None,
-    "", "plain", "with space", "quote\"s and 'single'", "k=v a=b", "café \U0001f600", "line1\nline2", "tab\there", "a\n\nb", "x\n \n\t\ny", "sep\u2028in\u2029value\x85end",
+    "", "plain", "with space", "quote\"s and 'single'", "k=v a=b", "café \U0001f600", "line1\nline2", "tab\there", "a\n\nb", "x\n \n\t\ny", "sep\u2028in\u2029value\x85end", "lone \ud83d surrogate",
     [1, [2, {"k": "v"}], []], {"a": {"b": [None, False]}, "z": 0}, ["a long list of strings"] * 6,
 ]
 import math
@@ -199,7 +199,8 @@ def cases(unit, tier):
         n = len(pool())
         for expr in range(len(EXPRS)):
             for start in range(0, n, 25):
-                yield ["filter", expr, start]
+                for stream in range(len(STREAMS)):
+                    yield ["filter", expr, start, stream]
 
 
 # ---------------------------------------------------------------------------
@@ -376,10 +377,14 @@ EXPRS = [
 ]
 
 
-def check_filter(expr_i, start):
+STREAMS = ["StringIO", "text stream encoded as UTF-8", "text stream encoded as ASCII (stdout under LANG=C)"]
+
+
+def check_filter(expr_i, start, stream=0):
     msgs = pool()[start:start + 25]
     incoming = [json.dumps(m).encode() + b"\n" for m in msgs]
-    out = io.StringIO()
+    raw = io.BytesIO()
+    out = io.StringIO() if stream == 0 else io.TextIOWrapper(raw, encoding="utf-8" if stream == 1 else "ascii", newline="")
     viol = []
 
     class FakeSys(object):
@@ -391,10 +396,14 @@ def check_filter(expr_i, start):
     try:
         rc = ef.main(FakeSys)
     except BaseException as e:
-        return [("filter:raised", {"error": repr(e), "expr": EXPRS[expr_i]})]
+        return [("filter:raised", {"error": repr(e)[:200], "expr": EXPRS[expr_i], "stdout": STREAMS[stream]})]
     if rc != 0:
         viol.append(("filter:exit-status", {"rc": rc}))
-    text = out.getvalue()
+    if stream == 0:
+        text = out.getvalue()
+    else:
+        out.flush()
+        text = raw.getvalue().decode("utf-8" if stream == 1 else "ascii")
     got = text.split("\n")
     if got[-1] != "":
         return [("filter:no-trailing-newline", {})]
@@ -448,5 +457,5 @@ def run_case(case):
     if case[0] == "stream":
         viol = check_stream(case[1], case[2])
         return Result(outcome=[case[1], case[2], len(viol)], violations=viol[:2])
-    viol = check_filter(case[1], case[2])
+    viol = check_filter(case[1], case[2], case[3] if len(case) > 3 else 0)
     return Result(outcome=[case[1], case[2], len(viol)], violations=viol[:2])
